@@ -15,9 +15,24 @@ What runs, through props/engine_common.run_engine_check:
     equal re-reads afterwards;
   * mon_final (MonC04.v) must hold on every trace: a false monitor is a concrete violation with that trace as replay;
   * Hang (Wait does not return within 5 s, re-run 3x in fresh children) violates C04's release obligation;
-  * Final.v = finalStates by direct function equality on generated status combinations (verifhooks.FinalStates).
+  * Final.v = finalStates by direct function equality on generated status combinations (verifhooks.FinalStates);
+  * a POLLED batch (profiles `cont` - a continuous check that passes, then fails at run k - and `final`, harness flag
+    -poll: Workstream.Plan is called every ~200 us while the plan runs): same automaton, same monitor.  The plan Wait
+    returns is assembled from reads; a storage layer that answers reads differently once something was read (a cache of
+    "finished" check groups) makes it disagree with what ran and with the engine's own last writes (clauses 6/8/10/11/15/13).
 """
+import json
+
 from props import engine_common as ec
+from vf import framework as fw
+
+EXTRA_HEADER = "From Coercion.C04 Require Import MonC04."
+MONITORS = ["mon_final", ("mon_final_diag", "list")]
+# the polled batch: (profile, n quick, n thorough).  A poller calls Workstream.Plan every ~200 us while the plan runs
+# (EvRead events; the automaton does not constrain them before the release, the monitor ignores them): a vault that
+# serves READS differently once something has been read (a cache) shows only here.  `cont`: a continuous check that
+# passes, then fails at run k >= 2; `final`: a failing stage at every position.
+POLLED = [("cont", 72, 720), ("final", 64, 960)]
 
 CODES = {
     1: "never released", 2: "plan not Completed/Failed", 3: "an object of the released plan is Running",
@@ -28,10 +43,96 @@ CODES = {
     12: "activity after release", 13: "re-read differs from the released plan", 14: "released plan lacks an object",
     15: "status/reason of the engine's last plan write differ from the released plan",
     16: "the reason the engine wrote is not the stage the trace shows failing",
+    17: "a plan-level check group's Failed status differs from what the trace shows of its last run",
 }
 
 
+def _diag(r):
+    return r[2] if r is not None and len(r) > 2 and r[2] and r[2][0] != 0 else []
+
+
+def judge_polled(ctx, cases, tag):
+    """Same automaton, same monitor, on traces of plans that were polled while they ran."""
+    mons = ec._mon_specs(MONITORS)
+    header = ec._header(EXTRA_HEADER, mons)
+    hangs = [c for c in cases if ec._is_hang(c)]
+    live = [c for c in cases if not ec._is_hang(c) and not c["dist"].get("late_start")]
+    results, infos = ec.evaluate(ctx, tag, live, header)
+    for info in infos:
+        ctx.oblige("corr_ok polled shard %d (%d traces of polled plans): automaton accepts, mon_final holds"
+                   % (info["shard"], info["n"]), info["rc"] == 0)
+    bad, rejected = [], []
+    for c, r in zip(live, results):
+        acc, b, why = ec.classify(c, r, mons)
+        if b:
+            bad.append((c, r, b, why))
+        elif not acc:
+            rejected.append((c, r, why))
+    sigs = {}
+    for x in bad:
+        sigs.setdefault(tuple(sorted(_diag(x[1]))), []).append(x)
+    for k in sorted(sigs, key=lambda k: (len(k), k))[:4]:
+        sigs[k].sort(key=lambda x: ec._size(x[0]))
+        c, r, b, why = sigs[k][0]
+        ctx.violation(ec._replay_obj(ctx, c, "monitor-false", "POLLED plan (Workstream.Plan called every ~200 us while it ran): mon_final false on "
+                                     "the trace of the real engine: failing clauses %s (%d of %d polled traces fail exactly these); "
+                                     "automaton: %s" % ("; ".join("%d %s" % (x, CODES.get(x, "?")) for x in k), len(sigs[k]), len(live), why),
+                                     r, mons, dict(failing_monitor="mon_final", failing_clauses=list(k), poll=True,
+                                                   failing_cases=[x[0]["id"] for x in sigs[k][:30]])), tag=tag)
+    if hangs:
+        hangs.sort(key=ec._size)
+        ctx.violation(ec._replay_obj(ctx, hangs[0], "hang", "release obligation violated: Wait of a POLLED plan did not return within 5 s "
+                                     "(%d hanging cases)" % len(hangs), None, mons, dict(poll=True)), tag=tag)
+    if rejected and not bad:
+        rejected.sort(key=lambda x: ec._size(x[0]))
+        c, r, why = rejected[0]
+        ctx.violation(ec._replay_obj(ctx, c, "correspondence-broken", "corr_engine_accept (polled plan): %s; mon_final true on %d rejected "
+                                     "traces" % (why, len(rejected)), r, mons, dict(broken="corr_engine_accept: " + why, poll=True)),
+                      nofail=True, tag=tag)
+    per = {}
+    for x in bad:
+        for code in _diag(x[1]):
+            per["%d %s" % (code, CODES.get(code, "?"))] = per.get("%d %s" % (code, CODES.get(code, "?")), 0) + 1
+    return dict(plans=len(cases), traces_checked=len(live), accepted_by_automaton=len(live) - len(rejected) - sum(1 for x in bad if not ec.classify(x[0], x[1], mons)[0]),
+                monitor_false=len(bad), clauses_failing=per, hangs=len(hangs), distinct=len({c.get("hash") for c in live}),
+                reads_before_release=fw.histogram(min(40, (c["dist"].get("kinds", {}).get("R", 1) - 1) // 5 * 5) for c in live),
+                profiles=fw.histogram(c["input"].get("profile") for c in cases),
+                cont_fail_run=fw.histogram(c["dist"].get("cont_fail_run") for c in cases if "cont_fail_run" in c.get("dist", {})))
+
+
+def polled_batch(ctx):
+    quick = ctx.tier == "quick"
+    cases = []
+    for prof, nq, nt in POLLED:
+        got = ec._harness(ctx, prof, nq if quick else nt, "cases_polled_%s.jsonl" % prof, ["-poll", "-from", "300000"])
+        if got is None:
+            return dict(skipped="harness did not run")
+        cases += got
+    ctx.oblige("polled batch: harness run completes (%d plans)" % len(cases), True)
+    return judge_polled(ctx, cases, "polled")
+
+
+def polled_replay(ctx, rp):
+    ctx.engine_proj = "c04"
+    ctx.static_and_proofs("c04")
+    cases = ec._harness(ctx, rp.get("profile") or "cont", 1, "replay_polled.jsonl",
+                        ["-poll", "-only", str(rp.get("index")), "-reps", "20"], seed=rp.get("case_seed") or rp.get("seed")) or []
+    res = judge_polled(ctx, cases, "replay") if cases else dict(plans=0)
+    ctx.say("replayed polled %s index %s: %s" % (rp.get("profile"), rp.get("index"), {k: res.get(k) for k in ("plans", "monitor_false", "clauses_failing", "hangs")}))
+    if not ctx.violations:
+        ctx.say("replay: not reproduced on this repository (%d polled runs accepted, mon_final true)" % len(cases))
+    ctx.evidence(dict(evaluations=len(cases), distinct_nontrivial=len({c.get("hash") for c in cases}), rule="replay of " + str(ctx.replay),
+                      samples=[], traces_validated_against_impl=len(cases)))
+
+
 def run(ctx):
+    if ctx.replay:
+        try:
+            rp = json.load(open(ctx.replay))
+        except (OSError, ValueError):
+            rp = {}
+        if rp.get("poll"):
+            return polled_replay(ctx, rp)
     # the shared driver writes the evidence itself: capture it, add the per-clause breakdown, then write it
     write_evidence, captured = ctx.evidence, {}
     ctx.evidence = lambda coverage, assumptions=None, level="proof": captured.update(cov=coverage, asm=assumptions, level=level)
@@ -39,8 +140,8 @@ def run(ctx):
         ctx,
         profile=[("final", 224, 9600), ("mixed", 96, 4800), ("tol", 360, 2880)],
         n_quick=0, n_thorough=0,
-        extra_header="From Coercion.C04 Require Import MonC04.",
-        monitors=["mon_final", ("mon_final_diag", "list")],
+        extra_header=EXTRA_HEADER,
+        monitors=MONITORS,
         release_obligation=True,
         multi_quick=40, multi_thorough=1200,
         finalfn=(2000, 7776),
@@ -82,5 +183,14 @@ def run(ctx):
         if "cov" in captured:
             captured["cov"]["mon_final_clauses_failing"] = {"%d %s" % (k, CODES.get(k, "?")): len(v) for k, v in sorted(per.items())}
             captured["cov"]["mon_final_failing_clause_sets"] = {str(list(k)): len(v) for k, v in sorted(sig.items())}
+    if out is not None and not ctx.replay:
+        polled = polled_batch(ctx)
+        if "cov" in captured:
+            captured["cov"]["polled_batch"] = polled
+            captured["cov"]["evaluations"] = captured["cov"].get("evaluations", 0) + polled.get("traces_checked", 0) + polled.get("hangs", 0)
+            captured["cov"]["traces_validated_against_impl"] = captured["cov"].get("traces_validated_against_impl", 0) + polled.get("traces_checked", 0)
+            captured["cov"]["obligations"] = len(ctx.obligations)
+            captured["cov"]["discharged"] = sum(1 for _, ok in ctx.obligations if ok)
+            captured["cov"]["obligation_list"] = [dict(name=n, discharged=ok) for n, ok in ctx.obligations]
     if "cov" in captured:
         write_evidence(captured["cov"], captured["asm"], captured["level"])
